@@ -5,6 +5,7 @@ copy of the specification taken before the call, error == 0 implies realizes(S0,
 Workloads: the real pipeline with -greedy (front-end specs) and hand-built specifications.
 """
 import copy
+import os
 import random
 
 from vlib import evm, gen, drive, sfs_eval
@@ -70,7 +71,7 @@ def install():
     n = 0
     for mod in list(sys.modules.values()):
         d = getattr(mod, "__dict__", None)
-        if not d or not getattr(mod, "__file__", None) or not str(mod.__file__).startswith("/repo"):
+        if not d or not getattr(mod, "__file__", None) or not str(mod.__file__).startswith(os.environ.get("GASOL_VERIF_REPO", "/repo")):
             continue
         for k, v in list(d.items()):
             if v is orig:
